@@ -77,7 +77,8 @@ def ioLine (fmt : Fmt) (sl : Nat) (doc : List Char) (ln : Int) (im : Bool) (c : 
   let o := docObj sl doc ln im
   let i : Int := (c.raw : Int) - (dropped doc : Nat)
   -- docutils' line structure: extra `splitlines()` boundaries before the block
-  let sh : Int := if fmt = .epytext then 0 else (extraBreaksBefore doc (c.raw - dropped doc) : Nat)
+  let sh : Int := if fmt = .epytext then 0
+    else (extraBreaksIn ((cleandocLines doc).map blankExtraBreaks) (c.raw - dropped doc) : Nat)
   let r : Line × String := match c.tag with
     | "B" => (report o .docstring (rstFieldLineno docutilsBase .bulletItem i), "P")
     | "D" => (report o .docstring (rstFieldLineno docutilsBase .deflistItem i), "P")
@@ -86,7 +87,7 @@ def ioLine (fmt : Fmt) (sl : Nat) (doc : List Char) (ln : Int) (im : Bool) (c : 
     -- V: c.j = number of further lines of the directive block
     | "V" => (report o .xref (versionArgXrefOffset i c.j (cleandocLines doc).length 0), "X")
     | "S" => (report o .xref (sectionTitleXrefOffset docutilsBase i c.j), "X")
-    | "Z" => (report o .xref tocXrefOffset, "X")
+    | "Z" => (report o .xref tocXrefOffsetOld, "X")      -- historical (before fcb5e8a); the harness no longer sends it
     | t => match parseCls t with
       | some cls => (reportedLine fmt sl doc ln im ⟨cls, c.raw, c.j⟩, showCls cls)
       | none => (.unknown, "?")
@@ -295,7 +296,8 @@ def handle (args : List String) : String :=
     | some fmt, some doc, some cs =>
       -- index of the block in the line structure the parser uses (docutils: `splitlines()`)
       let idx (c : IOCons) : Int := (c.raw : Int) - (dropped doc : Nat)
-        + (if fmt == .epytext then (0 : Int) else ((extraBreaksBefore doc (c.raw - dropped doc) : Nat) : Int))
+        + (if fmt == .epytext then (0 : Int)
+           else ((extraBreaksIn ((cleandocLines doc).map blankExtraBreaks) (c.raw - dropped doc) : Nat) : Int))
       let fatal := fmt == .epytext && cs.any (fun c => c.tag == "E")
       let fields := if fatal then [] else (cs.filter fun c => ["U", "P", "B", "D"].contains c.tag).map fun c =>
         toString (if c.tag == "B" then rstFieldLineno docutilsBase .bulletItem (idx c)
